@@ -57,6 +57,7 @@ def c_rmul(interp, st, args, kw):
     self, n = args[0], R(interp.resolve(st, args[1]))
     S = seq_of(self)
     Rr = SCALED(n, S)
+    st.ghost.setdefault("multipliers", []).append((self, n))
     st.assume(MASSOF(Rr) == n * MASSOF(S))
     den_facts(st).append(lambda x: T.DEN(Rr, x) == n * T.DEN(S, x))
     s = VSym(Rr, SEQS)
@@ -129,20 +130,36 @@ def _pairs_post(volume):
             ns = [q / M for q, M in zip(qs, Ms)]
         used = [q > 0 for q in qs]
         any_used = z3.Or(used)
-        scale = st.fresh("scale", z3.RealSort())
-        # scale is the smallest n_i among the used components
-        st.assume(z3.Implies(any_used, z3.And(z3.Or([z3.And(u, scale == n) for u, n in zip(used, ns)]),
-                                              z3.And([z3.Implies(u, scale <= n) for u, n in zip(used, ns)]))))
-        want = z3.Sum([z3.If(u, (n / scale) * T.DEN(seq_of_snapshot(s), x), z3.RealVal(0)) for u, n, s in zip(used, ns, C["snap"])])
-        st.oblige("post.atoms == sum over used components of (n_i/scale) * atoms(f_i); zero-quantity components vanish",
-                  T.DEN(Rs, x) == z3.If(any_used, want, z3.RealVal(0)))
-        # proportions: masses (weight) resp. volumes (volume) in the ratio of the quantities
+        # the multipliers k_i actually applied by the code (recorded at each n*f) - the property fixes
+        # them only up to ONE common positive factor: k_i : k_j == n_i : n_j
+        ks = [None] * len(fs)
+        extra = False
+        for obj, k in st.ghost.get("multipliers", []):
+            hit = [i for i, f in enumerate(fs) if f is obj]
+            if hit and ks[hit[0]] is None:
+                ks[hit[0]] = k
+            else:
+                extra = True
+        st.oblige("post.each used component is multiplied exactly once, unused ones never",
+                  z3.And([z3.BoolVal(not extra)] + [u == z3.BoolVal(k is not None) for u, k in zip(used, ks)]))
+        comp = z3.Sum([k * T.DEN(seq_of_snapshot(s_), x) for k, s_ in zip(ks, C["snap"]) if k is not None] + [z3.RealVal(0)])
+        st.oblige("post.atoms == sum over the used components of k_i * atoms(f_i); zero-quantity components vanish",
+                  T.DEN(Rs, x) == comp)
+        for i in range(len(fs)):
+            if ks[i] is None:
+                continue
+            st.oblige("post.multiplier %d is positive" % i, ks[i] > 0)
+            for j in range(i + 1, len(fs)):
+                if ks[j] is not None:
+                    st.oblige("post.multipliers %d:%d are in the ratio n_i : n_j (n = q/m resp. q*rho/m)" % (i, j),
+                              ks[i] * ns[j] == ks[j] * ns[i])
+        # (n_i M_i : n_j M_j == q_i : q_j  resp. n_i M_i/rho_i : n_j M_j/rho_j == q_i : q_j by definition of n_i)
         for i in range(len(fs)):
             for j in range(i + 1, len(fs)):
-                wi, wj = ns[i] / scale * Ms[i], ns[j] / scale * Ms[j]
+                wi, wj = ns[i] * Ms[i], ns[j] * Ms[j]
                 if volume:
                     wi, wj = wi / rhos[i].val, wj / rhos[j].val
-                st.oblige("post.proportion %d:%d equals the requested quantities" % (i, j),
+                st.oblige("lemma.component amounts %d:%d are in the ratio of the requested quantities" % (i, j),
                           z3.Implies(z3.And(used[i], used[j]), wi * qs[j] == wj * qs[i]))
         # density
         rho_r = r.attrs.get("density")
